@@ -1,6 +1,8 @@
 package main
 
 import (
+	"strings"
+
 	acracensor "github.com/cossacklabs/acra/acra-censor"
 	"github.com/cossacklabs/acra/sqlparser"
 	"github.com/cossacklabs/acra/sqlparser/dialect"
@@ -146,9 +148,19 @@ func (e *Env) sqlSpaces(thorough bool) []*Space {
 	sqlparser.SetDefaultDialect(e.sql.dialects["mysql"])
 	a := alphabet{Name: "sql", Tok: toks(`'`, `"`, "`", `\`, "(", ")", "/*", "*/", "--", "#", "$", "$1", "E'", "0x", "x'", ":", "?", ";", "\x00", "\x80",
 		"select ", "from ", "where ", "insert ", "values ", "union ", "t", "1", ",", "=", " ")}
-	l := 4
-	if thorough {
-		l = 5
+	if !thorough {
+		return e.sigma("sql", "sql", a, 4, decs, nil, nil)
 	}
-	return e.sigma("sql", "sql", a, l, decs, nil, nil)
+	// thorough: all twelve decoders up to L=4; at L=5 the six AcraCensor entry points only
+	// (HandleQuery runs HandleRawSQLQuery, which runs the parser twice, the printer and the
+	// normalizer: the other six decoders are reached through them)
+	out := e.sigma("sql", "sql", a, 4, decs, nil, nil)
+	var censors []*Decoder
+	for _, d := range decs {
+		if strings.HasPrefix(d.Name, "acracensor.") {
+			censors = append(censors, d)
+		}
+	}
+	top := e.sigma("sql", "sql", a, 5, censors, nil, nil)
+	return append(out, top[5])
 }
